@@ -1126,7 +1126,7 @@ class Exec:
         return self._flush_pending(st, [Outcome("normal", st)])
 
     def st_Return(self, s, st):
-        v = self.ev(s.value, st) if s.value is not None else T.NONE
+        v = self._ev_rhs(s.value, st, self.c.ret) if s.value is not None else T.NONE
         return self._flush_pending(st, [Outcome("return", st, val=v)])
 
     def st_Raise(self, s, st):
